@@ -27,6 +27,7 @@ class Profile:
         self.extra_tag_keys = []
         self.extra_field_keys = []
         self.grid = None  # None = gen.GRID
+        self.no_handle_peeks = False  # CSV: read the state from the file, probe only now and then
         self.allow_no_time = True
         self.min_ops, self.max_ops = 5, 25
         self.probe_every = 1  # probe after every n-th mutating op
@@ -185,6 +186,7 @@ class HistoryRunner:
         self.rng = rng
         self.prof = prof
         self.judge = judge
+        self.no_handle_peeks = bool(prof is not None and getattr(prof, "no_handle_peeks", False))
 
     def run(self):
         res, rng, prof = self.res, self.rng, self.prof
@@ -220,6 +222,9 @@ class HistoryRunner:
                 if not ok:
                     res.count("history_abandoned")
                     break
+                if prof.no_handle_peeks and rng.random() < 0.6:
+                    res.count("writes_directly_after_writes")
+                    continue
                 if step % prof.probe_every == 0:
                     self._probe(s)
             res.count("histories")
@@ -243,9 +248,17 @@ class HistoryRunner:
         self.res.count(f"op.{op['op']}")
         ctx = {"pre": pre}
         self.judge("write", s, out, ctx)
-        # state agreement after the write
+        # state agreement after the write.  For a CSV database the state is read from the FILE by an independent
+        # reader when possible (flush_on_insert=True): a peek through the database's own handle moves its cursor and
+        # flushes its buffer, which would hide what a stale cursor / an unflushed buffer does to the next call.
         try:
-            post = s.contents()
+            if s.path and s.cfg.get("flush", True) and not s.cfg.get("encoding") and not s.cfg.get("csv") and self.no_handle_peeks:
+                from . import csvcodec
+
+                post = [p.canon() for p in csvcodec.decode_file(s.path, None, {})]
+                self.res.count("state_read_from_file_not_handle")
+            else:
+                post = s.contents()
         except Exception as e:
             ctx["state_error"] = e
             self.judge("state", s, out, ctx)
